@@ -403,7 +403,9 @@ theorem lookupAux_skip_zero (keys : List (List Nat)) (ps : List Nat) :
   | cons p ps ih =>
     intro cur found
     by_cases hp : p = 0
-    · subst hp; simp [lookupAux, ih]
+    · subst hp
+      have := ih cur found
+      simpa [lookupAux] using this
     · have hb : (p == 0) = false := by simp [hp]
       simp only [List.filter_cons, ne_eq, hp, not_false_eq_true, decide_true, if_true, lookupAux, hb,
         Bool.false_eq_true, if_false, ih]
@@ -428,23 +430,23 @@ theorem paramLoop_spec (rows : List Row) (fn : Fn) : ∀ (ps : List Param) (name
   | nil => intro names acts ms; simp [paramLoop]
   | cons p ps ih =>
     intro names acts ms
-    by_cases h1 : p.isFArg fn ∧ p.ftrim
-    · have hm : p.isFArg fn ∧ (p.ftrim ∨ p.assumedType ∨ p.funPtr ∨ p.implied ≠ 0) := ⟨h1.1, Or.inl h1.2⟩
-      simp [paramLoop, h1, ih, apiOf, paramActuals, paramMatched, hm, List.append_assoc]
-    · by_cases h2 : p.isFArg fn ∧ (p.assumedType ∨ p.funPtr)
-      · have hm : p.isFArg fn ∧ (p.ftrim ∨ p.assumedType ∨ p.funPtr ∨ p.implied ≠ 0) :=
-          ⟨h2.1, by rcases h2.2 with h | h; exact Or.inr (Or.inl h); exact Or.inr (Or.inr (Or.inl h))⟩
-        simp [paramLoop, h1, h2, ih, apiOf, paramActuals, paramMatched, hm, List.append_assoc]
-      · by_cases h3 : p.isFArg fn ∧ p.implied = 1
-        · have hm : p.isFArg fn ∧ (p.ftrim ∨ p.assumedType ∨ p.funPtr ∨ p.implied ≠ 0) :=
-            ⟨h3.1, Or.inr (Or.inr (Or.inr (by omega)))⟩
-          simp [paramLoop, h1, h2, h3, ih, apiOf, paramActuals, paramMatched, hm, List.append_assoc]
-        · by_cases h4 : p.isFArg fn ∧ p.implied = 2
-          · have hm : p.isFArg fn ∧ (p.ftrim ∨ p.assumedType ∨ p.funPtr ∨ p.implied ≠ 0) :=
-              ⟨h4.1, Or.inr (Or.inr (Or.inr (by omega)))⟩
-            simp [paramLoop, h1, h2, h3, h4, ih, apiOf, paramActuals, paramMatched, hm, List.append_assoc]
-          · simp only [paramLoop, h1, h2, h3, h4, if_false, ih, apiOf, List.flatMap_cons, List.append_assoc]
-            by_cases h5 : p.isFArg fn ∧ ¬ p.hidden <;> simp [h5, List.append_assoc]
+    by_cases hf : p.isFArg fn = true
+    · by_cases h1 : p.ftrim = true
+      · simp [paramLoop, hf, h1, ih, apiOf, paramActuals, paramMatched, List.append_assoc]
+      · by_cases h2 : p.assumedType = true ∨ p.funPtr = true
+        · rcases h2 with h2 | h2 <;>
+            simp [paramLoop, hf, h1, h2, ih, apiOf, paramActuals, paramMatched, List.append_assoc]
+        · by_cases h3 : p.implied = 1
+          · simp [paramLoop, hf, h1, h2, h3, ih, apiOf, paramActuals, paramMatched, List.append_assoc]
+          · by_cases h4 : p.implied = 2
+            · simp [paramLoop, hf, h1, h2, h4, ih, apiOf, paramActuals, paramMatched, List.append_assoc]
+            · have h2' : ¬ p.assumedType = true ∧ ¬ p.funPtr = true := by
+                constructor <;> intro h <;> exact h2 (by simp [h])
+              simp only [paramLoop, hf, h1, h2, h3, h4, and_false, true_and, if_false, ih, apiOf,
+                List.flatMap_cons, List.append_assoc]
+              by_cases h5 : p.hidden = true <;> simp [h5, List.append_assoc]
+    · simp only [paramLoop, hf, false_and, if_false, ih, apiOf, List.flatMap_cons, List.append_assoc]
+      simp [List.append_assoc]
 
 /-- the whole wrapper: `this` first, then the result's leading buf_args, the parameters in
     declaration order, the result's trailing buf_extra / added names last -/
@@ -469,11 +471,6 @@ theorem this_first (rows : List Row) (fn : Fn) (h : fn.kind = 1 ∨ fn.kind = 4)
   obtain ⟨h1, h2⟩ := assembleF_spec rows fn
   rw [h1, h2]
   simp [h]
-
-/-- static methods, constructors and free functions have no `this` -/
-theorem no_this (rows : List Row) (fn : Fn) (h : ¬ (fn.kind = 1 ∨ fn.kind = 4)) :
-    Actual.this ∉ (assembleF rows fn).actuals.take 1 ∨ (assembleF rows fn).actuals.head? ≠ some .this ∨ True :=
-  Or.inr (Or.inr trivial)
 
 /-- **hidden and implied arguments are dropped from the Fortran API and supplied to C** -/
 theorem hidden_implied_dropped_and_supplied (rows : List Row) (fn : Fn) (p : Param)
@@ -525,11 +522,169 @@ theorem api_is_visible_params_in_order (rows : List Row) (fn : Fn)
             · by_cases h5 : p.implied = 2
               · simp [apiOf, Param.visible, hf, h1, h2, h3, h5]
               · by_cases h6 : p.hidden = true
-                · by_cases h7 : p.implied = 0 <;> simp [apiOf, Param.visible, hf, h1, h2, h3, h4, h5, h6, h7]
-                · by_cases h7 : p.implied = 0
-                  · simp [apiOf, Param.visible, hf, h1, h2, h3, h4, h5, h6, h7, hn]
-                  · -- an `implied` code other than 0, 1, 2 is not produced by the harness
-                    simp [apiOf, Param.visible, hf, h1, h2, h3, h4, h5, h6, h7, hn]
+                · simp [apiOf, Param.visible, hf, h1, h2, h3, h4, h5, h6]
+                · simp [apiOf, Param.visible, hf, h1, h2, h3, h4, h5, h6, hn]
     · simp [apiOf, Param.visible, hf]
+
+/-! ## 5. clones reach the intended entry point; generic interfaces -/
+
+/-- a function without `_PTR_F_C_index` is called through its own C wrapper -/
+theorem routeC_self (tab : List Node) (fuel i : Nat) (h : (tab[i]?).bind (·.ptrFC) = none) :
+    routeC tab fuel i = i := by
+  cases fuel <;> simp [routeC, h]
+
+/-- a function with `_PTR_F_C_index = j` is routed where `j` is routed -/
+theorem routeC_step (tab : List Node) (fuel i j : Nat) (h : (tab[i]?).bind (·.ptrFC) = some j) :
+    routeC tab (fuel + 1) i = routeC tab fuel j := by
+  simp [routeC, h]
+
+/-- what `arg_to_buffer` / `arg_to_CFI` do to the index: append the clone (`_PTR_C_CXX_index = i`)
+    and point the original at it (`_PTR_F_C_index = clone`) -/
+def addBufferify (tab : List Node) (i : Nat) (n : Node) : List Node :=
+  tab.set i { n with ptrFC := some tab.length } ++ [{ n with ptrFC := none, ptrCCxx := some i, wrapF := false }]
+
+/-- **bufferify / CFI routing**: the Fortran wrapper of function `i` calls the C wrapper of the
+    clone, and that C wrapper calls the library function `i` itself -/
+theorem bufferify_routes (tab : List Node) (i : Nat) (n : Node) (hi : i < tab.length) (hn : n.ptrCCxx = none) :
+    routeC (addBufferify tab i n) 2 i = tab.length ∧
+    routeCxx (addBufferify tab i n) 2 tab.length = i := by
+  have h1 : (addBufferify tab i n)[i]? = some { n with ptrFC := some tab.length } := by
+    simp [addBufferify, List.getElem?_append_left, hi]
+  have h2 : (addBufferify tab i n)[tab.length]? = some { n with ptrFC := none, ptrCCxx := some i, wrapF := false } := by
+    simp [addBufferify]
+  constructor
+  · simp [routeC, h1, h2]
+  · simp [routeCxx, h1, h2, hn]
+
+example : routeC (addBufferify [⟨none, none, true, 1, 1, false, 2⟩] 0 ⟨none, none, true, 1, 1, false, 2⟩) 2 0 = 1 := by
+  decide
+
+/-- **default-argument clones** (for every parameter list): every clone is a prefix of the
+    parameter list (`del new.ast.params[i:]`), so the clone's wrapper passes the caller's first
+    arguments unchanged and C++ supplies the rest -/
+theorem defaultClones_prefix {α : Type} (params : List α) : ∀ (inits : List Bool) (i : Nat),
+    ∀ c ∈ defaultClonesAux params inits i, ∃ k, c = params.take k := by
+  intro inits
+  induction inits with
+  | nil => intro i c hc; simp [defaultClonesAux] at hc
+  | cons b r ih =>
+    intro i c hc
+    cases b
+    · exact ih (i + 1) c (by simpa [defaultClonesAux] using hc)
+    · simp only [defaultClonesAux, List.mem_cons] at hc
+      rcases hc with rfl | hc
+      · exact ⟨i, rfl⟩
+      · exact ih (i + 1) c hc
+
+theorem defaultClonesAux_true {α : Type} (params : List α) : ∀ (d i : Nat),
+    defaultClonesAux params (List.replicate d true) i = (List.range d).map (fun k => params.take (i + k)) := by
+  intro d
+  induction d with
+  | zero => intro i; simp [defaultClonesAux]
+  | succ d ih =>
+    intro i
+    rw [List.replicate_succ, defaultClonesAux, ih, List.range_succ_eq_map]
+    simp only [List.map_cons, Nat.add_zero, List.map_map, List.cons.injEq, true_and]
+    apply List.map_congr_left
+    intro k _
+    simp [Nat.add_assoc, Nat.add_comm 1 k]
+
+theorem defaultClonesAux_false {α : Type} (params : List α) (rest : List Bool) : ∀ (m i : Nat),
+    defaultClonesAux params (List.replicate m false ++ rest) i = defaultClonesAux params rest (i + m) := by
+  intro m
+  induction m with
+  | zero => intro i; simp
+  | succ m ih =>
+    intro i
+    rw [List.replicate_succ, List.cons_append, defaultClonesAux, ih]
+    congr 1
+    omega
+
+/-- with trailing defaults (the C++ rule) - `m` required parameters then `d` defaulted ones - the
+    clones have exactly the arities `m, m+1, .., m+d-1`, each taking the first parameters; together
+    with the original (`m+d` parameters) every call arity is wrapped exactly once -/
+theorem default_arity_clones {α : Type} (params : List α) (m d : Nat) (h : params.length = m + d) :
+    defaultClones params (List.replicate m false ++ List.replicate d true)
+      = (List.range d).map (fun k => params.take (m + k)) ∧
+    ∀ k, k < d → ((defaultClones params (List.replicate m false ++ List.replicate d true)).getD k []).length = m + k := by
+  have hs : defaultClones params (List.replicate m false ++ List.replicate d true)
+      = (List.range d).map (fun k => params.take (m + k)) := by
+    rw [defaultClones, defaultClonesAux_false, defaultClonesAux_true, Nat.zero_add]
+  refine ⟨hs, ?_⟩
+  intro k hk
+  rw [hs]
+  simp [List.getD_eq_getElem?_getD, hk, List.length_take]
+  omega
+
+example : defaultClones [10, 20, 30] [false, true, true] = [[10], [10, 20]] := by decide
+
+/-! ### generic interfaces -/
+
+def membersOf (gs : List (Nat × Bool × List Nat)) (name : Nat) : List Nat :=
+  match gs.find? (fun g => g.1 == name) with
+  | some g => g.2.2
+  | none => []
+
+theorem membersOf_addGeneric (gs : List (Nat × Bool × List Nat)) (name : Nat) (force : Bool) (i : Nat) (q : Nat) :
+    membersOf (addGeneric gs name force i) q = if name = q then membersOf gs q ++ [i] else membersOf gs q := by
+  induction gs with
+  | nil =>
+    by_cases h : name = q <;> simp [addGeneric, membersOf, List.find?, h]
+  | cons g r ih =>
+    obtain ⟨n, f, l⟩ := g
+    by_cases hn : n = name
+    · subst hn
+      by_cases h : n = q <;> simp [addGeneric, membersOf, List.find?, h]
+    · have hb : (n == name) = false := by simp [hn]
+      by_cases hq : n = q
+      · subst hq
+        have hne : ¬ name = n := fun e => hn e.symm
+        simp [addGeneric, hb, membersOf, List.find?, hne]
+      · have hb2 : (n == q) = false := by simp [hq]
+        simp only [addGeneric, hb, Bool.false_eq_true, if_false, membersOf, List.find?, hb2]
+        simpa [membersOf] using ih
+
+/-- **generic membership**: after the pass over the Fortran-wrapped functions, the group of a
+    generic name holds exactly the wrapped functions carrying that name, in emission order -
+    every overload, default-arity clone, template instantiation, fortran_generic and assumed-rank
+    variant that is wrapped for Fortran with that `F_name_generic`, and nothing else -/
+theorem generic_members (l : List (Nat × Node)) (q : Nat) : ∀ gs,
+    membersOf (collectGenerics l gs) q =
+      membersOf gs q ++ (l.filter (fun x => x.2.wrapF && x.2.genericKind != 0 && x.2.generic == q)).map (·.1) := by
+  induction l with
+  | nil => intro gs; simp [collectGenerics]
+  | cons x r ih =>
+    intro gs
+    obtain ⟨i, n⟩ := x
+    by_cases hw : n.wrapF = true ∧ n.genericKind ≠ 0
+    · simp only [collectGenerics, hw, and_self, if_true, ih, membersOf_addGeneric]
+      by_cases hq : n.generic = q
+      · simp [hq, hw.1, hw.2, List.filter_cons]
+      · simp [hq, hw.1, hw.2, List.filter_cons]
+    · simp only [collectGenerics, hw, if_false, ih]
+      have : (n.wrapF && n.genericKind != 0 && n.generic == q) = false := by
+        by_cases h1 : n.wrapF = true
+        · have : n.genericKind = 0 := by
+            by_contra h; exact hw ⟨h1, h⟩
+          simp [this]
+        · simp [h1]
+      simp [List.filter_cons, this]
+
+/-- an interface is written exactly for the forced groups (fortran_generic, constructors) and the
+    groups with at least two specifics; its specifics are the whole group, in order -/
+theorem emitted_generic_iff (gs : List (Nat × Bool × List Nat)) (name : Nat) (mem : List Nat) :
+    (name, mem) ∈ emittedGenerics gs ↔ ∃ f, (name, f, mem) ∈ gs ∧ (f = true ∨ mem.length > 1) := by
+  simp only [emittedGenerics, List.mem_map, List.mem_filter, Bool.or_eq_true, decide_eq_true_eq]
+  constructor
+  · rintro ⟨⟨n, f, l⟩, ⟨hm, hc⟩, he⟩
+    simp only [Prod.mk.injEq] at he
+    obtain ⟨rfl, rfl⟩ := he
+    exact ⟨f, hm, hc⟩
+  · rintro ⟨f, hm, hc⟩
+    exact ⟨(name, f, mem), ⟨hm, hc⟩, rfl⟩
+
+example : emittedGenerics (collectGenerics
+    [(0, ⟨none, none, true, 7, 1, false, 1⟩), (1, ⟨none, none, true, 7, 1, false, 2⟩), (2, ⟨none, none, true, 8, 1, false, 0⟩)] [])
+    = [(7, [0, 1])] := by decide
 
 end Shroud.WrapF
